@@ -109,6 +109,11 @@ class Gen:
     def vec(self, d):
         r = self.rng
         x = r.random()
+        if x > 0.9 and self.opts.get("near_basis", True):
+            # a pure state a small rotation away from a basis state: it must NOT be taken for the basis state
+            v = ref.haar_vec(r, d) * float(10 ** r.uniform(-4, -2.5))
+            v[int(r.integers(0, d))] += 1.0
+            return v / np.linalg.norm(v)
         if x < 0.15:
             # real amplitudes with a negative sign (amplitude sums vanish)
             v = np.ones(d) * r.choice([1, -1], size=d)
@@ -693,10 +698,27 @@ class Gen:
         return {"k": "config", "contraction": bool(self.p(0.5))}
 
     # ------------------------------------------------------------------ main
+    def multi_ce_prefix(self, v):
+        """scripted prefix: partition the world into 2-3 groups and build one composite envelope per group"""
+        w = v["w"]
+        units = list(w.envs) + [n for n in w.subs if w.kind(n) == "X"]
+        if len(units) < 2:
+            return []
+        self.rng.shuffle(units)
+        k = int(self.rng.integers(2, min(3, len(units)) + 1))
+        groups = [[] for _ in range(k)]
+        for i, u in enumerate(units):
+            groups[i % k].append(str(u))
+        return [{"k": "composite", "name": f"CE{i}", "args": g} for i, g in enumerate(groups) if g]
+
     def next_step(self, runner):
         v = self.view(runner)
         if v["joint"] > self.maxdim:
             return None
+        if not runner.records and self.opts.get("multi_ce") and self.p(self.opts["multi_ce"]):
+            self.prefix = self.multi_ce_prefix(v)
+        if getattr(self, "prefix", None):
+            return self.prefix.pop(0)
         if not v["w"].ces and self.p(self.opts.get("p_early_composite", 0.6)) and len(runner.records) < 2:
             st = self.step_composite(v)
             if st:
